@@ -381,6 +381,9 @@ def main(argv=None):
     # ---- evidence --------------------------------------------------------------------------------
     wall = time.time() - t0
     trusted = sorted({m for r in results for m in r.used_models})
+    for m in trusted:
+        if m.startswith("PREMISE LOST"):
+            print("PREMISE-LOST property=" + prop + " " + m[len("PREMISE LOST "):])
     bounded_summary = {n: {kk: vv for kk, vv in b.items() if kk != "failures"} | {"failures": len(b.get("failures", []))}
                        for n, b in bounded.items() if not n.startswith("__")}
     backends = {}
